@@ -434,9 +434,37 @@ func (e *c15env) raRead(k int64) {
 
 func (e *c15env) raSeek(off, whence int64) {
 	buffered := int64(e.ra.bufBlob.Buffered())
+	logicalBefore := e.blob.offset - buffered
 	ret, err := e.ra.Seek(off, int(whence))
 	e.emit([]int64{8, off, whence}, []int64{ret, c15errClass(err), e.blob.offset, int64(e.ra.bufBlob.Buffered()), atomic.LoadInt64(&e.rpcs)})
 	e.oposKnown = false
+	if err != nil {
+		// a plain Blob.Seek that fails leaves the cursor where it was: so must the wrapper's stream position
+		logicalAfter := e.blob.offset - int64(e.ra.bufBlob.Buffered())
+		if logicalAfter != logicalBefore {
+			cls := "buffered-zero"
+			if buffered > 0 {
+				cls = "buffered-nonzero"
+			}
+			e.report("ra-seek-failed-moved-position/"+cls, "a failed Seek on the read-ahead wrapper moved its stream position (the buffered bytes are skipped)",
+				map[string]interface{}{"off": off, "whence": whence, "err": fmt.Sprint(err), "logical_before": logicalBefore, "logical_after": logicalAfter, "buffered_before": buffered})
+			if e.raKnown {
+				e.raPos += logicalAfter - logicalBefore // follow the code so that later reads are still judged
+			}
+		}
+		failedAsExpected := true
+		switch whence {
+		case c15SeekSet:
+			failedAsExpected = off < 0
+		case c15SeekCur:
+			failedAsExpected = !e.raKnown || e.raPos-(logicalAfter-logicalBefore)+off < 0
+		case c15SeekEnd:
+			failedAsExpected = int64(len(e.oracle))+off < 0
+		}
+		if failedAsExpected {
+			return // position (as adjusted above) stays known
+		}
+	}
 	var want int64
 	switch whence {
 	case c15SeekSet:
@@ -449,7 +477,10 @@ func (e *c15env) raSeek(off, whence int64) {
 	case c15SeekEnd:
 		want = int64(len(e.oracle)) + off
 	default:
-		e.raKnown = false
+		if err == nil {
+			e.report("ra-seek-invalid-whence-accepted", "the wrapper's Seek with an invalid whence did not fail", nil)
+			e.raKnown = false
+		}
 		return
 	}
 	det := map[string]interface{}{"off": off, "whence": whence, "ret": ret, "err": fmt.Sprint(err), "logical_pos_before": e.raPos, "buffered_before": buffered, "blob_len": len(e.oracle)}
@@ -807,7 +838,7 @@ func (e *c15env) buildLayout(r *vw.Rng) {
 	}
 }
 
-func c15runCase(id string, r *vw.Rng, fix16, fix17 bool, nops int) *c15env {
+func c15runCase(id string, r *vw.Rng, fix16, fix17, fix17b bool, nops int) *c15env {
 	cacheOn := r.Bool()
 	repl := r.PickInt(1, 1, 1, 2, 3)
 	e := c15newEnv(id, cacheOn, repl)
@@ -817,7 +848,7 @@ func c15runCase(id string, r *vw.Rng, fix16, fix17 bool, nops int) *c15env {
 		}
 		return 0
 	}
-	e.emit([]int64{0, b2i(fix16), b2i(fix17), b2i(cacheOn)}, []int64{0})
+	e.emit([]int64{0, b2i(fix16), b2i(fix17), b2i(cacheOn), b2i(fix17b)}, []int64{0})
 	kind := r.Intn(100)
 	switch {
 	case kind < 35: // direct operations only
@@ -887,6 +918,19 @@ func c15probe17() (*c15env, bool) {
 	return e, fixed
 }
 
+// a failed Seek on the wrapper must leave its stream position alone (F17b)
+func c15probe17b() (*c15env, bool) {
+	e := c15newEnv("p17b", false, 3)
+	e.emit([]int64{0, 0, 0, 0}, []int64{0})
+	e.writeAt(0, []c15run{{10, 1}, {990, 2}})
+	e.raNew()
+	e.raRead(5)
+	e.raSeek(-1, c15SeekSet)
+	fixed := e.blob.offset-int64(e.ra.bufBlob.Buffered()) == 5
+	e.raRead(5)
+	return e, fixed
+}
+
 func TestVerifC15(t *testing.T) {
 	if !vw.Enabled() {
 		t.Skip("verification harness: run through /verif/bin/check")
@@ -904,11 +948,14 @@ func TestVerifC15(t *testing.T) {
 	}
 	p16, fix16 := c15probe16()
 	p17, fix17 := c15probe17()
+	p17b, fix17b := c15probe17b()
 	// the probes' config lines carry the variant they found
-	p16.lines[0].op = []int64{0, b2i(fix16), b2i(fix17), 0}
-	p17.lines[0].op = []int64{0, b2i(fix16), b2i(fix17), 0}
+	for _, p := range []*c15env{p16, p17, p17b} {
+		p.lines[0].op = []int64{0, b2i(fix16), b2i(fix17), 0, b2i(fix17b)}
+	}
 	vw.Stat(fmt.Sprintf("variant.fix16=%v", fix16), 1)
 	vw.Stat(fmt.Sprintf("variant.fix17=%v", fix17), 1)
+	vw.Stat(fmt.Sprintf("variant.fix17b=%v", fix17b), 1)
 
 	ncases := vw.Scale(400, 12000)
 	nops := 12
@@ -925,7 +972,7 @@ func TestVerifC15(t *testing.T) {
 			defer wg.Done()
 			defer func() { <-sem }()
 			r := root.Fork(uint64(ci))
-			e := c15runCase(fmt.Sprint(ci), r, fix16, fix17, nops)
+			e := c15runCase(fmt.Sprint(ci), r, fix16, fix17, fix17b, nops)
 			e.oracle = nil
 			e.cli = nil
 			e.blob = nil
@@ -935,7 +982,7 @@ func TestVerifC15(t *testing.T) {
 	}
 	wg.Wait()
 
-	all := append([]*c15env{p16, p17}, envs...)
+	all := append([]*c15env{p16, p17, p17b}, envs...)
 	for _, e := range all {
 		if e == nil {
 			continue
@@ -956,7 +1003,7 @@ func TestVerifC15(t *testing.T) {
 		if len(e.lines) > 4 {
 			vw.Distinct(fp)
 		}
-		if e.id == "0" || e.id == "1" || e.id == "p16" || e.id == "p17" {
+		if e.id == "0" || e.id == "1" || e.id == "p16" || e.id == "p17" || e.id == "p17b" {
 			s := "case " + e.id + ":"
 			for _, l := range e.lines {
 				s += " >" + vw.Ints(l.op) + " <" + vw.Ints(l.obs)
